@@ -50,7 +50,7 @@ def main():
     benign = [k for k, m in metas if m.get("after_fix_round")]
     other_prop = [k for k, m in metas if m.get("detected_by", "") and not m["detected_by"].startswith(m.get("property", "?") + " ") and k not in final_missed and k not in pending]
     out.append(f"Summary: {n} seeded changes in six rounds (A/B: round 1, C/D: round 2 written against the tree after the fix rounds "
-               f"with the round-1 mechanisms excluded, E/F: round 3 with rounds 1-2 excluded, G/H: round 4 for fourteen properties; round 5 added the two missing letters for the other ten; round 6 - letter I, in the continuation session - one more for C02, C05, C06, C08, C09, C10, C13, C14, C15, C20 with all earlier mechanisms excluded). Detected by the committed checks: "
+               f"with the round-1 mechanisms excluded, E/F: round 3 with rounds 1-2 excluded, G/H: round 4 for fourteen properties; round 5 added the two missing letters for the other ten; round 6 - letter I, in the continuation session - one more for C02, C05, C06, C07, C08, C09, C10, C13, C14, C15, C16, C17, C19, C20 with all earlier mechanisms excluded). Detected by the committed checks: "
                f"{n - len(final_missed) - len(pending) - len(benign)}; of these {len(missed_first)} were MISSED by the first attempt and caught only after the "
                f"check was strengthened ({', '.join(missed_first)}), {len(nofail_first)} were first reported without a failing input "
                f"({', '.join(nofail_first)}), {len(other_prop)} are caught by the check of a neighbouring property rather than the one they were "
